@@ -17,6 +17,7 @@ from __future__ import annotations
 import itertools
 import json
 import os
+import subprocess
 import sys
 import time
 
@@ -49,6 +50,9 @@ THEOREMS = [
     "SleapVerif.C14.call_history_irrelevant",
     "SleapVerif.C14.head_stride_eq_max_rejected",
     "SleapVerif.C14.arch_full_counterexample_convs_per_block",
+    "SleapVerif.C14.arch_full_counterexample_wrapper_filters_rate",
+    "SleapVerif.C14.arch_full_counterexample_wrapper_max_stride",
+    "SleapVerif.C14.targets_shape_match",
     "SleapVerif.C14.arch_grid_full_false",
     "SleapVerif.C14.arch_middle_block_asIs_counterexample",
     "SleapVerif.C14.arch_wrapper_output_stride_asIs_counterexample",
@@ -105,39 +109,69 @@ def head_specs(c):
 
 
 def doc_valid(c):
-    """Documented validity (independent of the model): power-of-two strides with
-    backbone output_stride <= every head stride <= max_stride / 2 (a head AT max_stride is an
-    invalid configuration that must be rejected loudly: DESIGN §4 C14), and for the
-    ConvNeXt / Swin wrappers filters_rate == 2 (their encoder doubles channels per stage)."""
-    S = real_max_stride(c)
-    hs = [h for h, _ in head_list(c)]
-    if not all(c["bos"] <= h and 2 * h <= S for h in hs):
-        return False
-    if c["fam"] != "unet" and c["rate"] != "2":
-        return False
-    # the wrappers' stem conv has padding=1 hard-coded: it divides multiples of its stride exactly
-    # iff 2 < kernel <= stride + 2 (stem_patch_kernel / patch_size); other kernels are rejected in forward
-    if c["fam"] != "unet" and not (2 < c.get("stem_kernel", 4) <= c["stem"] + 2):
-        return False
-    # kernel_size (all "same"-padded stride-1 convs) may be any k >= 1: it does not enter the bookkeeping
-    return c["cpb"] >= 1 and c.get("kernel", 3) >= 1
+    """Documented validity — the SAME predicate as Lean `docValid` (Lemmas/ArchTable.lean), independent of
+    the model's verdicts: backbone output_stride <= every head stride <= max_stride / 2 with the
+    CONFIGURED max_stride (a head AT max_stride is an invalid configuration that must be rejected
+    loudly: DESIGN §4 C14).  docs/config.md restricts neither filters_rate, convs_per_block,
+    middle_block, the stem kernel nor the wrappers' max_stride, so none of them is a validity condition:
+    configurations that fail there are judged by the oracle and routed through `known` findings."""
+    return all(c["bos"] <= h and 2 * h <= c["ms"] for h, _ in head_list(c))
+
+
+def in_grid(c):
+    """the property's grid (Lean `inGrid`, plus the sampled conv-geometry dimensions); configurations
+    outside it (UNet stem_stride >= 8: stem_stride >= max_stride is possible there) are
+    correspondence-only"""
+    return c["fam"] != "unet" or c["stem"] in (None, 2, 4)
+
+
+def excluded_regions(c):
+    """the regions Lean `supported` (and the stem-kernel window of `arch_contract_stem_kernel`) exclude —
+    each one belongs to a `known` finding and is sampled with the property oracle"""
+    r = []
+    if c["fam"] == "unet":
+        if c["cpb"] < 2 and (c["rate"] != "1" or c["stem"] is None):
+            r.append("unet_convs_per_block_lt_2")
+    else:
+        if c["rate"] != "2":
+            r.append("wrapper_filters_rate_ne_2")
+        if c["ms"] != 8 * c["stem"]:
+            r.append("wrapper_max_stride_ignored")
+        if not (2 < c.get("stem_kernel", 4) <= c["stem"] + 2):
+            r.append("wrapper_stem_kernel_geometry")
+    return r
 
 
 def known_region(c):
-    """region excluded by `supported` because of a finding that is still `known`"""
-    return c["fam"] == "unet" and c["cpb"] < 2
+    """configuration lies in a region excluded because of a finding that is still `known`"""
+    return bool(excluded_regions(c))
 
 
-def signatures(c):
-    """structural predicates of the C14 findings (on the configuration).  Only
-    `unet_convs_per_block_lt_2` is still `known`; the other two belong to `fixed` entries and
-    suppress nothing."""
+def signatures(c, info=None, made=()):
+    """Narrow structural predicates of the C14 findings: the configuration lies in the finding's
+    region AND the observed failure is the finding's failure mode.  Any other oracle failure on
+    such a configuration (wrong shape, channels, batch, non-finite, target mismatch, another
+    exception) matches nothing and is an ordinary VIOLATION."""
+    status, exc = (info or {}).get("status"), (info or {}).get("exc")
+    fwd_runtime = status == "fwd-raise" and exc == "RuntimeError"
+    regions = excluded_regions(c)
     s = []
-    if c["fam"] == "unet" and c["cpb"] < 2:
+    if "unet_convs_per_block_lt_2" in regions and fwd_runtime:
         s.append("unet_convs_per_block_lt_2")
-    if c["fam"] == "unet" and not c["mid"] and c["rate"] != "1":
+    if "wrapper_filters_rate_ne_2" in regions and fwd_runtime:
+        s.append("wrapper_filters_rate_ne_2")
+    if "wrapper_stem_kernel_geometry" in regions and fwd_runtime:
+        s.append("wrapper_stem_kernel_geometry")
+    if "wrapper_max_stride_ignored" in regions and status in ("fwd-raise", "construct-raise"):
+        S = 8 * c["stem"]
+        size_off = any(h % S or w % S for h, w in made)
+        head_off = any(2 * h > S for h, _ in head_list(c))
+        if (fwd_runtime and size_off) or (exc == "ValueError" and head_off):
+            s.append("wrapper_max_stride_ignored")
+    # signatures of the two FIXED findings (suppress nothing; kept for the evidence histogram)
+    if c["fam"] == "unet" and not c["mid"] and c["rate"] != "1" and fwd_runtime:
         s.append("unet_no_middle_block")
-    if c["fam"] != "unet" and c["bos"] > c["stem"]:
+    if c["fam"] != "unet" and c["bos"] > c["stem"] and fwd_runtime:
         s.append("wrapper_output_stride_gt_stem")
     return s
 
@@ -183,6 +217,9 @@ def gen_cfg(rng, fam=None, small=True):
         c["filters"] = rng.choice([8, 16, 24, 32, 64])
         c["ms"] = rng.choice([8, 16, 32])
         c["stem"] = rng.choice([None, None, 2, 4])
+        if rng.random() < 0.06:  # outside the grid: stem_stride >= 8, possibly >= max_stride (negative down_blocks)
+            c["stem"] = rng.choice([8, 16])
+            c["float_rate"] = False  # model assumption there: an integer-valued rate is a Python int
         S = c["ms"]
     else:
         c["variant"] = rng.choice(VARIANTS[fam][:2] if small else VARIANTS[fam])
@@ -218,6 +255,17 @@ def grid_unet(full_dims):
                     yield dict(fam="unet", kind="single_instance", parts=3, edges=1, cpb=cpb, upi=upi, mid=mid,
                                rate=r, filters=f, variant="", float_rate=False, ms=ms, stem=stem, bos=bos,
                                hos=hos, pos=hos)
+
+
+def grid_wrap():
+    """the factored ConvNeXt / Swin tables of `arch_grid_ok` (`tableWrap`), every variant"""
+    for fam in ("convnext", "swint"):
+        for variant, sps in itertools.product(VARIANTS[fam], [2, 4]):
+            S = 8 * sps
+            for bos, hos in itertools.product([1, 2, 4, 8, 16], repeat=2):
+                if bos <= hos and 2 * hos <= S:
+                    yield dict(fam=fam, kind="centroid", parts=1, edges=1, cpb=2, upi=False, mid=True, rate="2",
+                               filters=0, variant=variant, float_rate=False, ms=S, stem=sps, bos=bos, hos=hos, pos=hos)
 
 
 # ------------------------------------------------------------------ implementation side
@@ -290,7 +338,7 @@ def impl_run(c, calls, B=1, seed=0):
 
     r = call(build_real, c)
     if r[0] == "raise":
-        return "construct-raise " + canon_exc(r), calls, {"status": "construct-raise"}
+        return "construct-raise " + canon_exc(r), calls, {"status": "construct-raise", "exc": r[1]}
     m = r[1]
     m.eval()
     dec = m.backbone.dec
@@ -314,6 +362,7 @@ def impl_run(c, calls, B=1, seed=0):
         return head, made, info
     if res[0] == "raise":
         info["status"] = "fwd-raise"
+        info["exc"] = res[1]
         return head + " | fwd-raise " + canon_exc(res), made, info
     z = res[1]
     o = cap["o"]
@@ -394,13 +443,18 @@ def oracle(c, calls, made, info, B):
     (a) a documented-valid configuration must build and run on inputs that are multiples of the
         max stride;  (b) whenever forward succeeds the dict has one entry per head with the
         contracted shape (B, channels, H / stride, W / stride) = shape of the pipeline's targets."""
-    S = real_max_stride(c)
+    S = c["ms"]  # the CONFIGURED max_stride: what the property and the data pipeline's padding refer to
     on_grid = all(h % S == 0 and w % S == 0 and h > 0 and w > 0 for h, w in made)
+    if info["status"] == "construct-raise":
+        # construction does not depend on the input size: judged regardless of on_grid
+        if doc_valid(c) and in_grid(c):
+            return f"valid configuration raised at construction ({info.get('exc')})"
+        return None
     if not on_grid and info["status"] != "ok":
         info["offgrid"] = info["status"]
     if info["status"] != "ok":
-        if doc_valid(c) and on_grid:
-            return f"valid configuration raised ({info['status']})"
+        if doc_valid(c) and in_grid(c) and on_grid:
+            return f"valid configuration raised ({info['status']} {info.get('exc')})"
         return None
     if "out" not in info:
         return None
@@ -440,6 +494,14 @@ def oracle(c, calls, made, info, B):
         return "batch dimension changed or non-finite output"
     return None
 
+
+NUMERIC_FIXED = [  # one per backbone family: the numeric clause is never left to the random stream
+    dict(fam="unet", kind="bottomup", parts=3, edges=2, cpb=2, upi=True, mid=True, rate="2", filters=8,
+         variant="", float_rate=False, ms=16, stem=None, bos=2, hos=2, pos=4),
+    dict(fam="convnext", kind="centroid", parts=1, edges=1, cpb=2, upi=True, mid=True, rate="2", filters=0,
+         variant="tiny", float_rate=False, ms=16, stem=2, bos=2, hos=2, pos=2),
+    dict(fam="swint", kind="single_instance", parts=2, edges=1, cpb=2, upi=False, mid=True, rate="2",
+         filters=0, variant="tiny", float_rate=False, ms=16, stem=2, bos=4, hos=4, pos=4)]
 
 FRAME_KINDS = ["unit", "raw255", "uint8like", "negative", "large", "const0", "const1", "const255", "constneg"]
 
@@ -532,8 +594,8 @@ def determinism_tests(c, rng, tol=1e-5):
     mate = torch.rand(2, 1, x.shape[2], x.shape[3], generator=g)
     fails = []
 
-    def dev(a, b):
-        return max(float((a[k] - b[k]).abs().max()) for k in a)
+    def dev(a, b):  # relative to the output magnitude
+        return max(float((a[k] - b[k]).abs().max()) / max(1.0, float(a[k].abs().max())) for k in a)
 
     with torch.no_grad():
         y0 = m(x)           # first call: pools in the "same" state
@@ -550,7 +612,7 @@ def determinism_tests(c, rng, tol=1e-5):
     d = {"repeat": dev(y0, y1), "history": dev(y0, y2), "batch": dev(y0, yb1), "fresh_module": dev(y0, y3)}
     for k, v in d.items():
         if not v <= tol:
-            fails.append(f"{k}: max abs deviation {v:.3g} > {tol}")
+            fails.append(f"{k}: max relative deviation {v:.3g} > {tol}")
     return fails, d
 
 
@@ -570,14 +632,17 @@ def run_case(chk, c, calls, B, tags, model_out=None):
     if "offgrid" in info:
         chk.tag("excluded_region(offgrid):" + info["offgrid"])
     if why:
-        chk.fail(f"C14 fails: {why}", case, line, signatures(c))
-        chk.tag("oracle_fail:" + ",".join(signatures(c) or ["UNLISTED"]))
+        sigs = signatures(c, info, made)
+        chk.fail(f"C14 fails: {why}", case, line, sigs)
+        chk.tag("oracle_fail:" + ",".join(sigs or ["UNLISTED"]))
     info.pop("model", None)
     return why
 
 
 def pick_calls(rng, c, kind):
     S = real_max_stride(c)
+    if c["fam"] != "unet" and c["ms"] != S and kind != "offgrid" and rng.random() < 0.6:
+        S = c["ms"]  # multiples of the CONFIGURED max_stride (which the wrappers ignore)
     if kind == "single":
         return [(S * rng.choice([1, 2, 2, 3]), S * rng.choice([1, 2, 2, 3]))]
     if kind == "history":
@@ -595,17 +660,27 @@ WITNESSES = {
                                   rate="2", filters=8, variant="", ms=8, stem=None, bos=2, hos=2, pos=2),
     "F-C14-wrapper-output-stride": dict(fam="swint", kind="centroid", parts=1, edges=1, cpb=2, upi=True, mid=True,
                                         rate="2", filters=0, variant="tiny", ms=16, stem=2, bos=4, hos=4, pos=4),
+    "F-C14-wrapper-filters-rate": dict(fam="swint", kind="centroid", parts=1, edges=1, cpb=2, upi=True, mid=True,
+                                       rate="3/2", filters=0, variant="tiny", ms=16, stem=2, bos=2, hos=2, pos=2),
+    "F-C14-wrapper-max-stride": dict(fam="convnext", kind="centroid", parts=1, edges=1, cpb=2, upi=True, mid=True,
+                                     rate="2", filters=0, variant="tiny", ms=16, stem=4, bos=4, hos=4, pos=4,
+                                     input=(16, 16)),
+    "F-C14-wrapper-stem-kernel": dict(fam="convnext", kind="centroid", parts=1, edges=1, cpb=2, upi=True, mid=True,
+                                      rate="2", filters=0, variant="tiny", ms=16, stem=2, bos=2, hos=2, pos=2,
+                                      stem_kernel=2),
 }
 
 
 def _worker(args):
     c, calls, B = args
+    import_repo()  # spawn-ed worker: fresh interpreter
     import torch
 
     torch.set_num_threads(1)
     line, made, info = impl_run(c, calls, B)
     why = oracle(c, calls, made, info, B)
-    return line, made, info["status"] + ("|offgrid:" + info["offgrid"] if "offgrid" in info else ""), why
+    return (line, made, info["status"] + ("|offgrid:" + info["offgrid"] if "offgrid" in info else ""), why,
+            signatures(c, info, made) if why else [])
 
 
 # ------------------------------------------------------------------ main
@@ -678,14 +753,74 @@ def main(chk: Check):
     for fid, wc in WITNESSES.items():
         if any(f["id"] == fid for f in chk.known):
             S = real_max_stride(wc)
-            line, made, info = impl_run(wc, [(2 * S, 2 * S)])
+            line, made, info = impl_run(wc, [tuple(wc.get("input", (2 * S, 2 * S)))])
             why = oracle(wc, None, made, info, 1)
+            ent = next(f for f in chk.known if f["id"] == fid)
+            # a `known` witness must fail in ITS failure mode (its narrow signature), not in any way
+            if why and ent["status"] == "known" and ent["signature"] not in signatures(wc, info, made):
+                chk.fail(f"witness of {fid} fails outside the finding's signature: {why}", {"cfg": wc}, line, [])
             chk.known_replay(fid, still_fails=bool(why), detail=line)
             m = norm(run_driver("C14.lean", [model_line(wc, made)])[0])
             line = norm(line)
             chk.case("witness:" + fid, {"cfg": wc, "impl": line, "model": m}, tags=["witness"])
             if line != m:
                 chk.disagree("known-finding witness: impl == model", {"cfg": wc}, line, m)
+
+    # (3a) eval-mode determinism / batch / history independence: tests on the real modules
+    det = {"configs": 0, "max_dev": {}, "failures": [], "families": {}}
+    det_cfgs, tries = list(NUMERIC_FIXED), 0
+    while len(det_cfgs) < chk.n(9, 60) and tries < 400:
+        tries += 1
+        c = gen_cfg(rng)
+        if doc_valid(c) and in_grid(c) and not known_region(c) and cost(c) <= 800:
+            det_cfgs.append(c)
+    for c in det_cfgs:
+        fails, d = determinism_tests(c, rng)
+        det["families"][c["fam"]] = det["families"].get(c["fam"], 0) + 1
+        det["configs"] += 1
+        for k, v in d.items():
+            det["max_dev"][k] = max(det["max_dev"].get(k, 0.0), v)
+        chk.case(None, None, tags=["determinism_test:" + c["fam"]])
+        if fails:
+            det["failures"].append({"cfg": c, "fails": fails})
+            chk.fail("C14 eval-mode determinism fails: " + "; ".join(fails), {"cfg": c}, d, [])
+    det["label"] = ("TESTS (floating-point facts about torch kernels; not covered by a theorem); one fixed config per "
+                    "family (UNet, ConvNeXt, Swin-T) always run; relative tolerance 1e-5 * max(1, max|y|)")
+    chk.extra["eval_determinism_tests"] = det
+
+    # (3b) batch independence with mixed-range batches, every backbone family (numeric clause: a TEST)
+    bt = {"label": "TEST of the numeric clause (eval output of a frame is independent of its batch-mates), "
+                   "mixed value ranges " + "/".join(FRAME_KINDS) + "; relative tolerance 1e-4; not a theorem",
+          "configs": 0, "comparisons": 0, "worst_relative_deviation": 0.0, "failures": 0, "families": {}}
+    fixed = list(NUMERIC_FIXED)
+    extra_cfgs, tries = [], 0
+    while len(extra_cfgs) < chk.n(3, 30) and tries < 300:
+        tries += 1
+        c = gen_cfg(rng)
+        if doc_valid(c) and in_grid(c) and not known_region(c) and cost(c) <= 800:
+            extra_cfgs.append(c)
+    for c in fixed + extra_cfgs:
+        fails, st = batch_independence_tests(c, rng)
+        bt["configs"] += 1
+        bt["comparisons"] += st["comparisons"]
+        bt["worst_relative_deviation"] = max(bt["worst_relative_deviation"], st["worst_relative_deviation"])
+        bt["families"][c["fam"]] = bt["families"].get(c["fam"], 0) + 1
+        chk.case(None, None, tags=["batch_independence_test:" + c["fam"]])
+        for f in fails[:2]:
+            bt["failures"] += 1
+            chk.fail(f"C14 numeric clause fails: eval output of frame '{f['target_frame']}' changes with its "
+                     f"batch-mates (relative deviation {f['relative_deviation']:.3g} > 1e-4)",
+                     {"cfg": c, "batch": f, "rebuild": "harness/c14.py make_frame(kind, seed, h, w)"},
+                     f["relative_deviation"], [])
+    chk.extra["batch_independence_tests"] = bt
+    chk.extra["excluded_region_cases"] = {
+        "offgrid_inputs (not multiples of max stride; oracle only: keys/channels/batch/finite)":
+            {k.split(":", 1)[1]: v for k, v in chk.hist.items() if k.startswith("excluded_region(offgrid):")},
+        "unet_convs_per_block_lt_2 (known finding)": sum(v for k, v in chk.hist.items()
+                                                         if k.startswith("oracle_fail:unet_convs_per_block_lt_2")),
+    }
+    if det["configs"] < 3 or bt["configs"] < 3:
+        chk.broken.append("numeric clause of C14 not exercised for every backbone family")
 
     # (3) corpus, then generated cases
     cases = []
@@ -714,6 +849,25 @@ def main(chk: Check):
     cases.append((c, [(32, 48)], 1, ["fixed_region:duplicate_edges"]))
     c = dict(c, kind="single_instance", part_ids=[0, 1, 1, 0, 2])  # repeated part names
     cases.append((c, [(16, 16)], 2, ["fixed_region:repeated_parts"]))
+    # UNet stem_stride >= max_stride (outside the grid; Python keeps a negative down_blocks in the exponents)
+    for stem, ms, bos in ((16, 8, 2), (8, 8, 2), (16, 16, 4), (8, 16, 1), (32, 8, 1)):
+        c = dict(fam="unet", kind="single_instance", parts=3, edges=1, cpb=2, upi=True, mid=True, rate="2", filters=8,
+                 variant="", float_rate=False, ms=ms, stem=stem, bos=bos, hos=bos, pos=bos)
+        cases.append((c, [(2 * ms, 2 * ms)], 1, ["fixed_region:stem_ge_max_stride"]))
+    # excluded regions of `supported` (one `known` finding each) and the working part of convs_per_block=1
+    base_w = dict(kind="centroid", parts=1, edges=1, cpb=2, upi=True, mid=True, filters=0, variant="tiny",
+                  float_rate=False, bos=2, hos=2, pos=2)
+    for c, size in ((dict(base_w, fam="swint", rate="3/2", ms=16, stem=2), (32, 32)),
+                    (dict(base_w, fam="convnext", rate="1", ms=16, stem=2), (32, 16)),
+                    (dict(base_w, fam="convnext", rate="2", ms=16, stem=4, bos=4, hos=4, pos=4), (16, 16)),
+                    (dict(base_w, fam="swint", rate="2", ms=16, stem=4, bos=4, hos=4, pos=4), (48, 32)),
+                    (dict(base_w, fam="convnext", rate="2", ms=16, stem=4, bos=4, hos=4, pos=4), (32, 32)),
+                    (dict(base_w, fam="swint", rate="2", ms=32, stem=2, bos=2, hos=16, pos=16), (32, 32)),
+                    (dict(base_w, fam="convnext", rate="2", ms=16, stem=2, stem_kernel=2), (32, 32)),
+                    (dict(base_w, fam="unet", rate="1", ms=16, stem=4, cpb=1, filters=8, variant=""), (32, 16)),
+                    (dict(base_w, fam="unet", rate="1", ms=8, stem=2, cpb=1, mid=False, filters=16, variant=""), (8, 16)),
+                    (dict(base_w, fam="unet", rate="1", ms=16, stem=None, cpb=1, filters=8, variant=""), (16, 16))):
+        cases.append((c, [size], 1, ["fixed_region:excluded_or_boundary"]))
     # conv geometry: even kernels, one decoder block (a size error would be silent) and several blocks
     for fam, kern, extra in (("unet", 2, dict(filters=8, ms=16, stem=None, variant="", bos=8, hos=8)),
                              ("unet", 4, dict(filters=8, ms=16, stem=None, variant="", bos=2, hos=4)),
@@ -729,11 +883,6 @@ def main(chk: Check):
         c = dict(fam="unet", kind=kind, parts=3, edges=2, cpb=2, upi=True, mid=True, rate="2", filters=8, variant="",
                  float_rate=False, ms=16, stem=None, bos=2, hos=2, pos=4)
         cases.append((c, [(32, 64)], 1, ["fixed_region:nonsquare_targets"]))
-    n_rand = chk.n(170, 1200)
-    for i in range(n_rand):
-        c = gen_cfg(rng, small=not (chk.thorough or i % 40 == 0))
-        ck = rng.choice(["single"] * 5 + ["history"] * 2 + ["offgrid"] * 2)
-        cases.append((c, pick_calls(rng, c, ck), rng.choice([1, 1, 2]), [ck]))
     # strided sample (quick) / all (thorough) of the factored table behind `arch_grid_ok`
     dims = [(2, True, True)]
     table = list(grid_unet(dims))
@@ -750,15 +899,33 @@ def main(chk: Check):
                 for kern in (1, 2, 4, 5):
                     cases.append((dict(c, kernel=kern), [(2 * c["ms"], c["ms"])], 1, ["table_x_kernel"]))
 
+    if chk.thorough:  # ConvNeXt / Swin tables against the real models: every variant, stride pair, stem
+        for c in grid_wrap():
+            cases.append((c, [(2 * c["ms"], c["ms"])], 1, ["table_wrap"]))
+    n_fixed = len(cases)
+    # the random stream comes LAST: a time budget can only truncate it, never the fixed / table cases
+    n_rand = chk.n(170, 1200)
+    for i in range(n_rand):
+        c = gen_cfg(rng, small=not (chk.thorough or i % 40 == 0))
+        ck = rng.choice(["single"] * 5 + ["history"] * 2 + ["offgrid"] * 2)
+        cases.append((c, pick_calls(rng, c, ck), rng.choice([1, 1, 2]), [ck]))
+
     model_outs = run_driver("C14.lean", [model_line(c, calls) for c, calls, _, _ in cases])
     n_done = 0
     if chk.thorough:
         import multiprocessing as mpc
 
-        ctx = mpc.get_context("fork")
-        with ctx.Pool(int(os.environ.get("VERIF_PROCS", "8"))) as pool:
-            results = pool.map(_worker, [(c, calls, B) for c, calls, B, _ in cases], chunksize=4)
-        for (c, calls, B, tags), mo, (line, made, status, why) in zip(cases, model_outs, results):
+        # spawn (not fork: the parent has already run torch / OpenMP) + bounded worker life + global timeout:
+        # a hung or OOM-killed worker ends the run with exit 2 (infrastructure), never a verdict
+        ctx = mpc.get_context("spawn")
+        with ctx.Pool(int(os.environ.get("VERIF_PROCS", "8")), maxtasksperchild=200) as pool:
+            ar = pool.map_async(_worker, [(c, calls, B) for c, calls, B, _ in cases], chunksize=4)
+            try:
+                results = ar.get(timeout=1500)
+            except mpc.TimeoutError:
+                pool.terminate()
+                raise subprocess.TimeoutExpired("c14 thorough worker pool", 1500)
+        for (c, calls, B, tags), mo, (line, made, status, why, sigs) in zip(cases, model_outs, results):
             m = norm(mo if made == calls else run_driver("C14.lean", [model_line(c, made)])[0])
             line = norm(line)
             status, _, og = status.partition("|offgrid:")
@@ -770,7 +937,8 @@ def main(chk: Check):
                 chk.disagree("Model(...) construction/forward bookkeeping == Arch.construct/forward",
                              {"cfg": c, "calls": made, "B": B}, line, m)
             if why:
-                chk.fail(f"C14 fails: {why}", {"cfg": c, "calls": made, "B": B}, line, signatures(c))
+                chk.fail(f"C14 fails: {why}", {"cfg": c, "calls": made, "B": B}, line, sigs)
+                chk.tag("oracle_fail:" + ",".join(sigs or ["UNLISTED"]))
         n_done = len(cases)
     else:
         for (c, calls, B, tags), mo in zip(cases, model_outs):
@@ -780,6 +948,15 @@ def main(chk: Check):
             n_done += 1
     chk.extra["cases_planned"] = len(cases)
     chk.extra["cases_run"] = n_done
+    if n_done < len(cases):
+        msg = (f"time budget hit: only {n_done} of {len(cases)} planned cases run "
+               f"({max(0, n_done - n_fixed)} of {len(cases) - n_fixed} random ones; all fixed/table cases "
+               f"{'run' if n_done >= n_fixed else 'NOT run'})")
+        print("WARNING: " + msg)
+        chk.extra["budget_truncated"] = msg
+        if n_done < n_fixed + (len(cases) - n_fixed) // 4:
+            # less than a quarter of the random stream: the run says too little — infrastructure, not a verdict
+            chk.broken.append("correspondence not exercised (machine overloaded): " + msg)
 
     # on a disagreement: focused failing-input search around the disagreeing configurations
     if chk.disagreements and not chk.failing:
@@ -795,72 +972,16 @@ def main(chk: Check):
                 if c["fam"] != "unet":
                     c["stem"] = c["stem"] or 2
                     c["filters"] = 0
-                if not doc_valid(c) or known_region(c):
+                if not doc_valid(c) or not in_grid(c) or known_region(c):
                     continue
                 S = real_max_stride(c)
                 line, made, info = impl_run(c, [(2 * S, S)])
                 why = oracle(c, None, made, info, 1)
                 seen += 1
                 if why:
-                    chk.fail(f"C14 fails: {why}", {"cfg": c, "calls": made, "B": 1}, line, signatures(c))
+                    chk.fail(f"C14 fails: {why}", {"cfg": c, "calls": made, "B": 1}, line, signatures(c, info, made))
                     break
         chk.extra["focused_search_cases"] = seen
-
-    # (4) eval-mode determinism / batch / history independence: tests on the real modules
-    det = {"configs": 0, "max_dev": {}, "failures": []}
-    tries = 0
-    while det["configs"] < chk.n(10, 60) and tries < 400 and time.time() < t_budget + 20:
-        tries += 1
-        c = gen_cfg(rng)
-        if not doc_valid(c) or known_region(c) or cost(c) > 800:
-            continue
-        fails, d = determinism_tests(c, rng)
-        det["configs"] += 1
-        for k, v in d.items():
-            det["max_dev"][k] = max(det["max_dev"].get(k, 0.0), v)
-        chk.case(None, None, tags=["determinism_test:" + c["fam"]])
-        if fails:
-            det["failures"].append({"cfg": c, "fails": fails})
-            chk.fail("C14 eval-mode determinism fails: " + "; ".join(fails), {"cfg": c}, d, [])
-    det["label"] = "TESTS (floating-point facts about torch kernels; not covered by a theorem), tolerance 1e-5"
-    chk.extra["eval_determinism_tests"] = det
-
-    # (5) batch independence with mixed-range batches, every backbone family (numeric clause: a TEST)
-    bt = {"label": "TEST of the numeric clause (eval output of a frame is independent of its batch-mates), "
-                   "mixed value ranges " + "/".join(FRAME_KINDS) + "; relative tolerance 1e-4; not a theorem",
-          "configs": 0, "comparisons": 0, "worst_relative_deviation": 0.0, "failures": 0, "families": {}}
-    fixed = [dict(fam="unet", kind="bottomup", parts=3, edges=2, cpb=2, upi=True, mid=True, rate="2", filters=8,
-                  variant="", float_rate=False, ms=16, stem=None, bos=2, hos=2, pos=4),
-             dict(fam="convnext", kind="centroid", parts=1, edges=1, cpb=2, upi=True, mid=True, rate="2", filters=0,
-                  variant="tiny", float_rate=False, ms=16, stem=2, bos=2, hos=2, pos=2),
-             dict(fam="swint", kind="single_instance", parts=2, edges=1, cpb=2, upi=False, mid=True, rate="2",
-                  filters=0, variant="tiny", float_rate=False, ms=16, stem=2, bos=4, hos=4, pos=4)]
-    extra_cfgs, tries = [], 0
-    while len(extra_cfgs) < chk.n(3, 30) and tries < 300:
-        tries += 1
-        c = gen_cfg(rng)
-        if doc_valid(c) and not known_region(c) and cost(c) <= 800 and (c["fam"] == "unet" or c["rate"] == "2"):
-            extra_cfgs.append(c)
-    for c in fixed + extra_cfgs:
-        fails, st = batch_independence_tests(c, rng)
-        bt["configs"] += 1
-        bt["comparisons"] += st["comparisons"]
-        bt["worst_relative_deviation"] = max(bt["worst_relative_deviation"], st["worst_relative_deviation"])
-        bt["families"][c["fam"]] = bt["families"].get(c["fam"], 0) + 1
-        chk.case(None, None, tags=["batch_independence_test:" + c["fam"]])
-        for f in fails[:2]:
-            bt["failures"] += 1
-            chk.fail(f"C14 numeric clause fails: eval output of frame '{f['target_frame']}' changes with its "
-                     f"batch-mates (relative deviation {f['relative_deviation']:.3g} > 1e-4)",
-                     {"cfg": c, "batch": f, "rebuild": "harness/c14.py make_frame(kind, seed, h, w)"},
-                     f["relative_deviation"], [])
-    chk.extra["batch_independence_tests"] = bt
-    chk.extra["excluded_region_cases"] = {
-        "offgrid_inputs (not multiples of max stride; oracle only: keys/channels/batch/finite)":
-            {k.split(":", 1)[1]: v for k, v in chk.hist.items() if k.startswith("excluded_region(offgrid):")},
-        "unet_convs_per_block_lt_2 (known finding)": sum(v for k, v in chk.hist.items()
-                                                         if k.startswith("oracle_fail:unet_convs_per_block_lt_2")),
-    }
 
 
 def replay(chk: Check, payload):
@@ -892,6 +1013,13 @@ if __name__ == "__main__":
              "(thorough) of the factored UNet table; distinct = distinct (config, call history)",
         assumptions=["in_channels = 1; kernel_size in {1..5} and stem_patch_kernel / patch_size in {2..7} are sampled (kernel_size does "
                      "not enter the model: same_padding_preserves_size); the UNet stem kernel (7) is not configurable",
-                     "a forward that raises ends a call history (pool layers would be in mixed states)"],
+                     "a forward that raises ends a call history (the model keeps ONE pooling bit; in the real code all pools "
+                     "have run before the decoder can raise, so a call after a failed call behaves like a fresh module — "
+                     "observed by the audit, covered by no case)",
+                     "never generated: in_channels != 1, custom `arch` dicts / unknown model_type fall-back, non-square Swin "
+                     "patch_size, block_contraction (unreachable via from_config), train() mode, class/offset heads (not built by get_head)",
+                     "UNet stem_stride >= 8 (outside the grid) is run with integer-valued rates as Python ints only "
+                     "(numpy raises on int ** negative int; the model has no float/int distinction)",
+                     "log2Trunc returns 0 for non-positive arguments (numpy gives -inf); unreachable from the generator"],
     )
     run_check(chk, main, replay)
